@@ -144,6 +144,9 @@ func (i *Interp) info(fn *ssa.Function) *fnInfo {
 		fi.phis[b] = np
 	}
 	i.fninfo[fn] = fi
+	if fi.n > 1500 && os.Getenv("GOSX_DEBUG") != "" {
+		fmt.Fprintf(os.Stderr, "big frame: %s n=%d\n", fn, fi.n)
+	}
 	return fi
 }
 
